@@ -508,14 +508,24 @@ def c08(res, scenario) -> list[Violation]:
                 if p0 is not None:
                     tot += tm[i_end] - p0
                 return (tm[i_end] - tm[i_start]) - tot
-            durs = scenario.get("durations", {})
-            delta = scenario.get("loop_quantum", 0.25) + durs.get("step", 0.0) + durs.get("train", 0.0) + 2.0
+            checks = [i for i, e in enumerate(ev) if e[1] in ("uptime_check", "uptime_reached") and i > i_start]
+            for k, i in enumerate(checks):
+                e = unpaused(i)
+                reached = ev[i][1] == "uptime_reached"
+                if reached != (sc * e > U + 1e-9) and abs(sc * e - U) > 1e-6:
+                    out.append(Violation(
+                        "c08:uptime-test", f"uptime test at event {i}: {e:.4f}s of un-paused real time at "
+                        f"scale {sc} (= {sc * e:.4f}s of system time), limit {U}: test said {reached}", case))
+                    break
             if i_up is not None and (other_stop is None or other_stop > i_up):
                 e = unpaused(i_up)
-                if not (U / sc - 1e-6 < e <= U / sc + delta + 1e-6):
+                prev = [i for i in checks if i < i_up]
+                e_prev = unpaused(prev[-1]) if prev else 0.0
+                if not (U / sc - 1e-6 < e) or not (e_prev <= U / sc + 1e-6):
                     out.append(Violation(
-                        "c08:uptime-window", f"uptime limit {U} at scale {sc}: reached after {e:.3f}s of "
-                        f"un-paused real time, expected in ({U / sc:.3f}, {U / sc + delta:.3f}]", case))
+                        "c08:uptime-window", f"uptime limit {U} at scale {sc}: shutdown at the check after "
+                        f"{e:.3f}s of un-paused real time, previous check at {e_prev:.3f}s; expected the "
+                        f"first check past {U / sc:.3f}s", case))
             elif i_up is None and other_stop is None:
                 out.append(Violation("c08:uptime-never", "finite uptime limit never reached", case))
     return out
